@@ -1,6 +1,7 @@
 package harness
 
 import (
+	"regexp"
 	"sort"
 	"strings"
 	"time"
@@ -56,4 +57,15 @@ func sortedKeys[V any](m map[string]V) []string {
 	}
 	sort.Strings(ks)
 	return ks
+}
+
+var frameArgs = regexp.MustCompile(`\([^()]*\)$`)
+
+// frameFunc reduces a stack frame line ("pkg/path.(*T).Method(0xc000, {0x1, 0x2})")
+// to "path.(*T).Method": no argument values (they are addresses) in a signature.
+func frameFunc(origin string) string {
+	fn := origin[strings.LastIndex(origin, "/")+1:]
+	fn = strings.TrimSuffix(fn, "(...)")
+	fn = frameArgs.ReplaceAllString(fn, "")
+	return fn
 }
